@@ -27,6 +27,10 @@ class _Cexptrk_Potential_Function(object):
     local_symbol_table = cexprtk.Symbol_Table({}, add_constants = True)
     parameter_names = self._potential_form_tuple.signature.parameter_names
     for pn in parameter_names:
+      if pn.lower() in _EXPRTK_RESERVED:
+        # the library's own check knows these names in lower case only; inside the formula 'True' would be the keyword, not the parameter
+        raise Potential_Form_Exception("parameter '{}' of potential-form '{}' cannot be used: the name is taken by a function or keyword of the expression library".format(
+          pn, self._potential_form_tuple.signature.label))
       try:
         local_symbol_table.variables[pn] = 1.0
       except KeyError as e:
